@@ -13,6 +13,7 @@ def run(chk):
                          'does so under a guard on the other operand or on the result: the checker types `Nat + Int` through Int.__add__ (Nat <: Int) but Python dispatches to Nat.__add__')
     n = c26.sign_rules(chk, fx, 'C02-sign')
     chk.floor('declared numeric operator rows', n, 20)
+    method_rules(chk, fx, 'C02-method')
     nd = wrap_rules(chk, 'C02-wrap')
     chk.floor('narrowing dunders', nd, 2)
     return ('Sign-interval abstraction of Python arithmetic applied to the declared operator table, and a guard rule over the binary dunders of the value-constrained runtime classes '
@@ -101,3 +102,44 @@ def guard_covers(fdef, cname):
             if not inside_if:
                 return False
     return True
+
+
+def method_rules(chk, fx, RULE):
+    """declared return class of the nullary methods of Nat / Bool vs the sign of what the runtime method (found through the Python MRO) returns"""
+    import ast
+    chk.rule(RULE, 'a method registered on Nat (or Bool) with return class Nat returns a non-negative value for every receiver of that class: the runtime method found through the '
+                   'Python MRO is evaluated over the receiver interval [0, inf) (e.g. Int.pred = Int(self - 1) gives [-1, inf): not a Nat)')
+    classes = OT.runtime_classes()
+    rows = OT.declared_methods(fx)
+    chk.analysed['declared methods on numeric classes'] = len(rows)
+    for (cls, name, pyname, ret, line) in rows:
+        if cls not in ('Nat', 'Bool') or ret not in ('Nat', 'Bool'):
+            continue
+        found = None
+        for k in OT.mro(classes, cls):
+            if pyname in classes[k]['methods']:
+                found = (k, classes[k]['methods'][pyname])
+                break
+        inst = '%s.%s -> %s' % (cls, name, ret)
+        if found is None:
+            chk.undecide('%s: runtime method `%s` is a plain Python builtin (not judged)' % (inst, pyname))
+            continue
+        k, fdef = found
+        if len(fdef.args.args) != 1:
+            chk.undecide('%s: takes operands (not judged here)' % inst)
+            continue
+        dom = (0, 1) if cls == 'Bool' else (0, None)
+        los = []
+        for n in ast.walk(fdef):
+            if isinstance(n, ast.Return) and n.value is not None:
+                iv = OT.py_interval(n.value, dom)
+                los.append(iv)
+        if not los or any(iv is None for iv in los):
+            chk.undecide('%s: return expression of %s.%s not evaluable' % (inst, k, pyname))
+            continue
+        neg = any(iv[0] is None or iv[0] < 0 for iv in los)
+        if neg:
+            chk.bad(RULE, 'Context::init_builtin_classes', inst, '%s is declared to return %s, but the runtime method %s.%s returns %s for a receiver in %s: the result is wrapped in %s and raises ValueError'
+                    % (inst, ret, k, pyname, ['[%s, %s]' % iv for iv in los], '[0, inf)', ret), OT.CLASSES, line)
+        else:
+            chk.ok(RULE, inst, sample='%s: %s.%s stays non-negative' % (inst, k, pyname))
